@@ -37,6 +37,12 @@ func buildScenario(r *simk.Run, prop string, tightP float64) *simk.Violation {
 	c := r.C
 	s := r.NewSim()
 	s.KeepLog = simk.WantLog()
+	// in 40% of the runs simulated time passes while the block is being built (a scheduler choice at
+	// every step): the build may run over its target duration and over a second boundary
+	if c.Bool(0.4) {
+		s.ClockTask = true
+		s.ClockSteps = []time.Duration{5 * time.Millisecond, 40 * time.Millisecond, 150 * time.Millisecond, 700 * time.Millisecond, 1100 * time.Millisecond}
+	}
 	var viol *simk.Violation
 	fail := func(class, format string, a ...any) {
 		if viol == nil {
